@@ -62,6 +62,20 @@ def run_case(run, drv, case):
                 run.fail("impl-vs-spec", dict(case, content=label),
                          {"result": result, "pieces": [(bool(o), s) for o, s in stream][:12]})
         rc_model(drv, case, raw, files, state)
+        # the command line, and a payload that is a symbolic link named like the torrent
+        store = os.path.join(box, "store")
+        os.makedirs(store)
+        real = os.path.join(store, "Some.Other.Name")
+        os.rename(root, real)
+        os.symlink(real, root)
+        for path, label in ((root, "cli-symlink-root"), (parent, "cli-symlink-parent")):
+            try:
+                result = impl.cli(["recheck", mpath, path])
+            except BaseException as exc:  # noqa
+                run.fail("impl-vs-spec", dict(case, content=label), {"raised": repr(exc)})
+                continue
+            if result != 100:
+                run.fail("impl-vs-spec", dict(case, content=label), {"result": result})
     run.case([case["version"], case["source"], case["pl"], case["single"]] +
              sorted([len(cr.blob_from_token(t)) % case["pl"],
                      min(len(cr.blob_from_token(t)) // case["pl"], 6)] for _, t in case["files"]),
